@@ -43,6 +43,13 @@ CHECKS = {
          "plus Hypothesis-drawn cases; both directions (accepts all well-formed, rejects every single-byte corruption).",
          "functional behaviour only, no timing; reference MACs are stdlib hmac/hashlib; SSLv3 pad==block size counted as either",
          "DESIGN.md §4 C12"),
+ "C15": ("exploration",
+         "property-based round-trip and framing-perturbation testing over harvested and create()-generated encodings",
+         "Well-formed encodings come from every handshake message sent in 16 real handshake flavours (harvested before protection, so encrypted-phase messages are included) and from create() with "
+         "Hypothesis-drawn arguments for 18 message and 27 extension shapes. write(parse(b)) must equal b; every strict prefix, a byte appended inside or outside the outer length, and +-1 at every byte "
+         "offset must raise a decode error or be itself well-formed (byte-identical re-encoding); oversize fields must make write() raise ValueError.",
+         "message dispatch by type byte is out of scope (C06); NextProtocol padding content is opaque; record-layer framing is C14/C08",
+         "DESIGN.md §4 C15"),
  "C20": ("exploration",
          "exhaustive enumeration of (suite, version, role) with an IANA-table oracle, reference receiver and reference PRF; MITM rewriting for undefined pairs",
          "Every suite id the library lists x every version is enumerated: defined pairs are negotiated between pinned endpoints and their records re-opened by a reference "
